@@ -27,7 +27,8 @@
      dflt-leaflist-partial      one of several default leaf-list instances freed: not restored
      vdiff-np-container         the auto-deletion of an (empty) default NP container is not in the change list
      wd-leaflist-partial-default  trim mode drops an explicit leaf-list instance equal to ONE of the default values *)
-From LY Require Import Base Tree TreeP Implicit ImplicitP WithDefaults WithDefaultsP.
+From LY Require Import Base Tree TreeP Implicit ImplicitP WithDefaults WithDefaultsP WhenRes.
+From Coq Require Import Permutation.
 Local Open Scope N_scope.
 
 (* ------------------------------------------------------------------------------------------- *)
@@ -224,6 +225,47 @@ Proof.
   split; [apply (proj1 (canonb_spec _ _ _)); exact H1|]. rewrite H2, H3. discriminate.
 Qed.
 Print Assumptions C07_wd_modes_rfc6243_refuted.
+
+Local Close Scope N_scope.
+(* ---- when resolution (WhenRes.v: the fixpoint of lyd_validate_unres_when as of 7b3176d on a flat abstraction; wrun p w Q
+   runs it with fuel = number of queued nodes on the world w - present (node, value) entries - and the set Q of queued
+   (node, was-true-before) pairs, conditions p over the presence / value of smaller-numbered nodes) *)
+
+(* the loop ends with every condition resolved or with an error: the assertion "no cyclic when dependencies" holds *)
+Theorem C07_when_resolution_terminates : forall p w Q, acyclicb p = true -> wrun p w Q <> Stuck.
+Proof. exact wrun_terminates. Qed.
+Print Assumptions C07_when_resolution_terminates.
+
+(* the resulting tree (or the fact that the data are invalid) does not depend on the order of the set *)
+Theorem C07_when_resolution_order_independent : forall p w Q1 Q2,
+  acyclicb p = true -> NoDup (map fst Q1) -> Permutation Q1 Q2 ->
+  (forall w', wrun p w Q1 = Done w' -> wrun p w Q2 = Done w') /\
+  ((exists n, wrun p w Q1 = Err n) -> exists n, wrun p w Q2 = Err n).
+Proof. exact wrun_order_independent. Qed.
+Print Assumptions C07_when_resolution_order_independent.
+
+(* resolving again what survived (every node now "was true") deletes nothing and reports no error *)
+Theorem C07_when_resolution_idempotent : forall p w Q w',
+  acyclicb p = true -> NoDup (map fst Q) -> wrun p w Q = Done w' ->
+  exists D, w' = wof nat w D /\ wrun p w' (requeue Q D) = Done w'.
+Proof. exact wrun_idempotent. Qed.
+Print Assumptions C07_when_resolution_idempotent.
+
+(* the same three statements for ANY conditions that read only their declared dependencies, acyclic by some rank *)
+Theorem C07_when_resolution_generic : forall (val : Type) (cond : nat -> list (nat * val) -> bool) (deps : nat -> list nat)
+    (rank : nat -> nat),
+  (forall n d, In d (deps n) -> rank d < rank n) ->
+  (forall n w1 w2, agree val (deps n) w1 w2 -> cond n w1 = cond n w2) ->
+  forall w Q1 Q2 f1 f2, NoDup (map fst Q1) -> Permutation Q1 Q2 -> length Q1 <= f1 -> length Q2 <= f2 ->
+    run val cond deps f1 w Q1 <> Stuck /\
+    (forall w', run val cond deps f1 w Q1 = Done w' -> run val cond deps f2 w Q2 = Done w') /\
+    ((exists n, run val cond deps f1 w Q1 = Err n) -> exists n, run val cond deps f2 w Q2 = Err n).
+Proof. intros val cond deps rank A C w Q1 Q2 f1 f2 ND P L1 L2. split.
+  - exact (run_terminates val cond deps rank A f1 w Q1 L1).
+  - exact (run_order_independent val cond deps rank A C w Q1 Q2 f1 f2 ND P L1 L2).
+Qed.
+Print Assumptions C07_when_resolution_generic.
+Local Open Scope N_scope.
 
 (* the hypotheses are satisfiable by a non-trivial value: the first witness schema (nested choices with a default case),
    parsed input e, w: validation succeeds, the result (e, d default, y default, w) is the normal form, its flags are
